@@ -399,7 +399,10 @@ def sd7(F, R):
         # that reach the command once the card-type tests are decided for one kind (idx * units_per_block with units chosen by
         # a match, a per-kind address variable, ...): it must be idx*512 resp. idx as a polynomial
         argterms = [strip_refs(fn.term_of_operand(t["args"][2], b)) for b, t in data_cmds]
-        if any(a[0] not in ("var",) and not (a[0] == "place" and tuple(a[2]) == ("as:Continue", "0")) for a in argterms):
+        def _inlined_result(a):
+            """`helper(..)?` whose helper was inlined: the payload of `branch(<local with Ok / Err definitions>)`"""
+            return a[0] == "place" and tuple(a[2]) == ("as:Continue", "0") and a[1][0] == "call" and (a[1][1] or "").endswith("Try::branch") and strip_refs(a[1][2][0])[0] == "var"
+        if any((a[0] not in ("var",) and not (a[0] == "place" and tuple(a[2]) == ("as:Continue", "0"))) or _inlined_result(a) for a in argterms):
             from .poly import peq, MUL, C
             from .ev import specialise_enum
             vs = F.variants("sdcard::CardType")
@@ -414,7 +417,10 @@ def sd7(F, R):
                 if kind is None:
                     R.require(not any(b in rs for b in cmd_blocks), fn, "uninit:no-command", "a data command is sent although the card is not initialised (card_type == None)", fn.loc(0))
                     errs = [x for x in err_returns(fn, adt="Error") if x[2] == "CardNotFound" and x[0] in rs]
-                    R.require(len(errs) >= 1 and not any(x[0] in rs for x in ok_returns(fn)), fn, "uninit->CardNotFound", "uninitialised card must give Err(CardNotFound)", fn.loc(0))
+                    # (through an inlined helper the error is built into the helper's result and leaves by `?`)
+                    built = [b_ for b_, i_, s_ in fn.stmts() if b_ in rs and s_["k"] == "Assign" and s_["rv"]["k"] == "Aggregate" and s_["rv"].get("variant_name") == "Err"
+                             and "CardNotFound" in tstr(fn.term_of_rvalue(s_["rv"], b_))]
+                    R.require((len(errs) >= 1 or built) and not any(x[0] in rs for x in ok_returns(fn)), fn, "uninit->CardNotFound", "uninitialised card must give Err(CardNotFound)", fn.loc(0))
                     continue
 
                 def alts(t_, depth=0):
@@ -422,6 +428,13 @@ def sd7(F, R):
                     t_ = strip_refs(t_)
                     if depth > 5:
                         return [t_]
+                    if _inlined_result(t_):
+                        v_ = strip_refs(t_[1][2][0])
+                        out = []
+                        for d in fn.defs().get(v_[1], []):
+                            if d[0] == "assign" and d[1] in rs and d[3]["k"] == "Aggregate" and d[3].get("variant_name") == "Ok" and d[3]["ops"]:
+                                out += alts(fn.term_of_operand(d[3]["ops"][0], d[1]), depth + 1)
+                        return out or [t_]
                     if t_[0] == "var":
                         out = []
                         for d in fn.defs().get(t_[1], []):
@@ -814,6 +827,13 @@ def sd11(F, R):
                 R.ok(fn, key, "failure of %s is %s" % (short, fk), fn.loc(b))
             elif (fn.npath, short) in EX and fk == "absorbed-success":
                 R.ok(fn, key + "|exempt", "exempt: " + EX[(fn.npath, short)], fn.loc(b))
+            elif fn.npath.startswith(SD + "::acquire::{closure") and short == "card_command" and fk in ("absorbed-success", "absorbed-continues", "unknown-idiom") and cmd_const(fn.term_of_operand(t["args"][1], b))[0] == "CMD0":
+                # the reset loop: `Err(TimeoutCommand(CMD0))` - and only that - is answered by flushing the bus and trying again, a
+                # bounded number of times (Delay::new(acquire_retries), SD12); any other error leaves through `Err(e) => return Err(e)`.
+                # The error-fate engine does not separate the variants of one match; the arm structure is checked here instead.
+                arms = [g for (gb, gi, g) in all_guards(fn) if g.kind in ("variant", "variants") and has_sub(g.term, lambda q: q[0] == "call" and q[3] == b)]
+                timeout_only = any(g.kind == "variant" and g.variant == "TimeoutCommand" for g in arms)
+                R.require(timeout_only, fn, key + "|cmd0-retry", "the CMD0 reset loop retries on something other than Err(TimeoutCommand(CMD0))", fn.loc(b), okdetail="exempt: CMD0 is retried after TimeoutCommand only (bounded)")
             else:
                 R.bad(fn, key, "a failure of %s (%s) is %s (%s): the driver would report success / go on after a bus or card error" % (short, fv or "SPI error", fk, detail), fn.loc(b))
 
@@ -1101,6 +1121,9 @@ def sd14(F, R):
         ok, _ = guarded(f, b, g_cmp("Eq", True, lambda a: has_sub(a, lambda q: q[0] == "call" and q[1] and path_matches(q[1], "SdCardInner::card_acmd")), lambda z: z[0] == "c" and z[1] == 0))
         ok2, _ = guarded(f, b, g_cmp("Eq", False, lambda a: has_sub(a, lambda q: q[0] == "call" and q[1] and path_matches(q[1], "SdCardInner::card_acmd")), lambda z: z[0] == "c" and z[1] == 0))
         R.require(ok, f, "ready", "identification can complete without ACMD41 having answered R1_READY_STATE (0x00): an error flag or any non-idle answer is taken for 'initialised' and data commands follow", f.loc(b, i))
+    # the OCR is read (CMD58) only after ACMD41 has answered READY: before that its power-up and CCS bits are not valid
+    ok58, _ = guarded(f, byname["CMD58"][0], g_cmp("Eq", True, lambda a: has_sub(a, lambda q: q[0] == "call" and q[1] and path_matches(q[1], "SdCardInner::card_acmd")), lambda z: z[0] == "c" and z[1] == 0))
+    R.require(ok58, f, "ocr-after-ready", "CMD58 (read OCR) is sent before ACMD41 has answered READY: the capacity bit read then is not valid yet, so high-capacity cards are taken for byte-addressed ones", f.loc(byname["CMD58"][0]))
 
 
 DELAY_CTORS = {"new_command": "DEFAULT_COMMAND_RETRIES", "new_read": "DEFAULT_READ_RETRIES", "new_write": "DEFAULT_WRITE_RETRIES"}
